@@ -1,0 +1,16 @@
+//go:build verif
+
+package reddit
+
+// Assumed (opaque) contracts: site-specific helpers read the URL/response they are given and
+// return freshly built URLs; they write nothing outside fresh objects except the URL's cached
+// document / body position.
+//@ func IsPostAPI
+//@   opaque
+//@   modifies models.URL::*
+//@ func ExtractAPIPostPermalinks
+//@   opaque
+//@   modifies models.URL::*
+//@ func IsRedditURL
+//@   opaque
+//@   modifies models.URL::*
